@@ -1,8 +1,14 @@
 package mc
 
 import (
+	"bufio"
 	"encoding/json"
 	"fmt"
+	"os"
+	"os/exec"
+	"strconv"
+	"strings"
+	"sync"
 )
 
 // Exec is what a body reports for one execution.
@@ -31,6 +37,9 @@ type Body func(c *Chooser) Exec
 // Iterative bounding: bound 0 first, then 1, ... so the first violation found
 // has the fewest deviations.
 func (x *Cell) Enumerate(name string, opts EnumOpts, body Body) {
+	if os.Getenv("VERIF_BFS_CHILD") != "" {
+		return
+	}
 	if rp := x.ReplayOnly(); rp != nil {
 		var r struct {
 			Name    string `json:"name"`
@@ -160,6 +169,9 @@ func trunc(s string, n int) string {
 
 // BFSOpts configures BFS.
 type BFSOpts struct {
+	// Parallel > 1 expands every BFS level with that many child processes (same test binary, same cell,
+	// VERIF_BFS_CHILD set) that replay histories on request; the parent owns the frontier and the visited set.
+	Parallel  int
 	NumOps    int
 	MaxDepth  int // 0 = to closure
 	MaxStates int // cap (reported)
@@ -176,6 +188,15 @@ type RunHist func(hist []int) (key string, enabled bool)
 // that reaches it; successors are produced by replaying that history on a fresh
 // instance plus one operation.
 func (x *Cell) BFS(name string, opts BFSOpts, run RunHist) (reps [][]int) {
+	if child := os.Getenv("VERIF_BFS_CHILD"); child != "" {
+		if child == name {
+			x.serveBFS(run)
+		}
+		return nil
+	}
+	if opts.Parallel > 1 && x.ReplayOnly() == nil {
+		return x.parallelBFS(name, opts, run)
+	}
 	if rp := x.ReplayOnly(); rp != nil {
 		var r struct {
 			Name string `json:"name"`
@@ -248,4 +269,209 @@ func histNames(h []int, f func(int) string) []string {
 		}
 	}
 	return out
+}
+
+// ---------------------------------------------------------------- parallel BFS (parent / child protocol)
+
+// serveBFS: child side. Reads "h1,h2,..." lines, answers "V <json>" lines for confirmed violations followed by
+// one "K <enabled 0|1> <key>" line per request.
+func (x *Cell) serveBFS(run RunHist) {
+	in := bufio.NewReaderSize(os.Stdin, 1<<20)
+	out := bufio.NewWriter(os.Stdout)
+	for {
+		line, err := in.ReadString('\n')
+		if err != nil {
+			out.Flush()
+			os.Exit(0)
+		}
+		line = strings.TrimSpace(line)
+		if line == "" {
+			continue
+		}
+		var h []int
+		if line != "-" {
+			for _, f := range strings.Split(line, ",") {
+				v, _ := strconv.Atoi(f)
+				h = append(h, v)
+			}
+		}
+		nBefore := len(x.Violations)
+		x.deferEmit = true
+		k, en := run(h)
+		x.deferEmit = false
+		x.confirm(4, func() { run(h) })
+		for _, v := range x.Violations[min(nBefore, len(x.Violations)):] {
+			b, _ := json.Marshal(v)
+			fmt.Fprintf(out, "V %s\n", b)
+		}
+		e := 0
+		if en {
+			e = 1
+		}
+		fmt.Fprintf(out, "K %d %s\n", e, strings.ReplaceAll(k, "\n", " "))
+		out.Flush()
+	}
+}
+
+type bfsChild struct {
+	cmd *exec.Cmd
+	in  *bufio.Writer
+	out *bufio.Reader
+}
+
+func (x *Cell) startChildren(name string, n int) ([]*bfsChild, error) {
+	var cs []*bfsChild
+	for i := 0; i < n; i++ {
+		cmd := exec.Command(os.Args[0], "-test.run", "^TestCheck$", "-test.timeout", "0")
+		cmd.Env = append(os.Environ(), "VERIF_BFS_CHILD="+name, "VERIF_CELLS="+strconv.Itoa(x.Index), "VERIF_OUT=", "VERIF_REPLAY=")
+		stdin, err := cmd.StdinPipe()
+		if err != nil {
+			return nil, err
+		}
+		stdout, err := cmd.StdoutPipe()
+		if err != nil {
+			return nil, err
+		}
+		cmd.Stderr = nil
+		if err := cmd.Start(); err != nil {
+			return nil, err
+		}
+		cs = append(cs, &bfsChild{cmd, bufio.NewWriterSize(stdin, 1<<16), bufio.NewReaderSize(stdout, 1<<20)})
+	}
+	return cs, nil
+}
+
+type bfsAnswer struct {
+	key     string
+	enabled bool
+	viols   []Violation
+	err     error
+}
+
+func (c *bfsChild) ask(h []int) bfsAnswer {
+	parts := make([]string, len(h))
+	for i, v := range h {
+		parts[i] = strconv.Itoa(v)
+	}
+	line := strings.Join(parts, ",")
+	if line == "" {
+		line = "-"
+	}
+	if _, err := c.in.WriteString(line + "\n"); err != nil {
+		return bfsAnswer{err: err}
+	}
+	if err := c.in.Flush(); err != nil {
+		return bfsAnswer{err: err}
+	}
+	var a bfsAnswer
+	for {
+		l, err := c.out.ReadString('\n')
+		if err != nil {
+			a.err = fmt.Errorf("child ended: %v", err)
+			return a
+		}
+		l = strings.TrimRight(l, "\n")
+		if strings.HasPrefix(l, "V ") {
+			var v Violation
+			if json.Unmarshal([]byte(l[2:]), &v) == nil {
+				a.viols = append(a.viols, v)
+			}
+			continue
+		}
+		if strings.HasPrefix(l, "K ") {
+			a.enabled = l[2] == '1'
+			a.key = l[4:]
+			return a
+		}
+		// anything else (test framework chatter) is ignored
+	}
+}
+
+func (x *Cell) parallelBFS(name string, opts BFSOpts, run RunHist) (reps [][]int) {
+	children, err := x.startChildren(name, opts.Parallel)
+	if err != nil {
+		x.Cap(name + ": could not start BFS children (" + err.Error() + "); falling back to the sequential search")
+		o := opts
+		o.Parallel = 0
+		return x.BFS(name, o, run)
+	}
+	defer func() {
+		for _, c := range children {
+			c.cmd.Process.Kill()
+			c.cmd.Wait()
+		}
+	}()
+	a0 := children[0].ask(nil)
+	if a0.err != nil {
+		x.Cap(name + ": BFS child failed: " + a0.err.Error())
+		return nil
+	}
+	x.Executions++
+	x.State(name + "|" + a0.key)
+	reps = append(reps, []int{})
+	frontier := [][]int{{}}
+	depth, nstates := 0, 1
+	for len(frontier) > 0 {
+		if opts.MaxDepth > 0 && depth >= opts.MaxDepth {
+			x.Bound(fmt.Sprintf("%s: depth bound %d completed (%d frontier states not expanded further)", name, opts.MaxDepth, len(frontier)))
+			break
+		}
+		if x.TimeUp() || (opts.MaxStates > 0 && nstates >= opts.MaxStates) {
+			x.Cap(fmt.Sprintf("%s: state/time cap hit at depth %d (%d states; all shallower levels fully expanded)", name, depth, nstates))
+			return reps
+		}
+		// tasks of this level
+		type task struct {
+			h []int
+			a bfsAnswer
+		}
+		tasks := make([]*task, 0, len(frontier)*opts.NumOps)
+		for _, h := range frontier {
+			for op := 0; op < opts.NumOps; op++ {
+				nh := append(append(make([]int, 0, len(h)+1), h...), op)
+				tasks = append(tasks, &task{h: nh})
+			}
+		}
+		var wg sync.WaitGroup
+		for ci, c := range children {
+			wg.Add(1)
+			go func(ci int, c *bfsChild) {
+				defer wg.Done()
+				for i := ci; i < len(tasks); i += len(children) {
+					tasks[i].a = c.ask(tasks[i].h)
+					if tasks[i].a.err != nil {
+						return
+					}
+				}
+			}(ci, c)
+		}
+		wg.Wait()
+		var next [][]int
+		for _, t := range tasks {
+			if t.a.err != nil {
+				x.Cap(fmt.Sprintf("%s: a BFS child died at depth %d (%v); the level is incomplete", name, depth, t.a.err))
+				return reps
+			}
+			x.Executions++
+			for _, v := range t.a.viols {
+				x.Violate(v.Property, v.Signature, v.Message, v.Replay)
+			}
+			if !t.a.enabled {
+				continue
+			}
+			x.Transitions++
+			if x.State(name + "|" + t.a.key) {
+				nstates++
+				next = append(next, t.h)
+				reps = append(reps, t.h)
+				if len(x.samples) < 3 && len(t.h) >= 3 {
+					x.Sample(map[string]any{"bfs": name, "history": histNames(t.h, opts.OpName), "state": trunc(t.a.key, 300)})
+				}
+			}
+		}
+		frontier = next
+		depth++
+	}
+	x.Note("bfs_depth_"+name, int64(depth))
+	return reps
 }
